@@ -710,6 +710,12 @@ class BaseDiscretizer(BaseEstimator, TransformerMixin):
                 )
                 summaries += [feature_summary]
 
+        # no feature left to summarize (all features were dropped)
+        if len(summaries) == 0:
+            return DataFrame(columns=["feature", "dtype", "label", "content"]).set_index(
+                ["feature", "dtype"]
+            )
+
         # aggregating unique values per label
         summaries = (
             DataFrame(summaries)
